@@ -145,6 +145,14 @@ fn check_instant(ctx: &mut Ctx, tz: Tz, secs: i64, digits: u32, tag: &str) {
     let lib_val = Value::make_datetime(DateTime::from(tz.timestamp_opt(secs, nanos).unwrap()));
     let z = catch(|| to_zinc_string(&lib_val).map_err(|e| e.to_string()).and_then(|t| dt_of(from_str(&t).map_err(|e| format!("{e} (text {t})")))));
     expect(ctx, "zinc-roundtrip", "Zinc encode->decode", z, &want, false, &ztext);
+    // the same through the streaming encoder into a sink that takes a few bytes per write()
+    let zs = catch(|| {
+        let mut w = crate::readers::ShortWriter::new(1 + (secs.unsigned_abs() % 5) as usize);
+        libhaystack::encoding::zinc::encode::ToZinc::to_zinc(&lib_val, &mut w).map_err(|e| e.to_string())?;
+        let t = String::from_utf8(w.out).map_err(|e| e.to_string())?;
+        dt_of(from_str(&t).map_err(|e| format!("{e} (text {t})")))
+    });
+    expect(ctx, "zinc-roundtrip-short-writes", "Zinc to_zinc(writer)->decode", zs, &want, false, &ztext);
     // C: Hayson
     let doc = if short == "UTC" && (secs & 2) == 0 { json!({"_kind": "dateTime", "val": utc_text}) } else { json!({"_kind": "dateTime", "val": text, "tz": short}) }.to_string();
     expect(ctx, "hayson-text", "serde_json::from_str", catch(|| dt_of(serde_json::from_str::<Value>(&doc).map_err(|e| e.to_string()))), &want, false, &doc);
@@ -320,7 +328,55 @@ fn capi_instant(ctx: &mut Ctx, tz: Tz, secs: i64, nanos: u32, want: &MDateTime, 
     }
 }
 
+/// The first zone lookups of this process, issued by eight threads at once (a lazily built index or cache that is
+/// filled by the first caller must not be visible half-built to the others). One chance per worker process.
+fn cold_start(ctx: &mut Ctx) {
+    let zones = unambiguous_zones();
+    let barrier = std::sync::Barrier::new(8);
+    let bad: Vec<String> = std::thread::scope(|s| {
+        let hs: Vec<_> = (0..8usize)
+            .map(|t| {
+                let barrier = &barrier;
+                let zones = &zones;
+                s.spawn(move || {
+                    let mut bad = Vec::new();
+                    barrier.wait();
+                    // late-alphabet zones first on some threads, early ones on others
+                    let order: Vec<usize> = if t % 2 == 0 { (0..zones.len()).rev().collect() } else { (0..zones.len()).collect() };
+                    for zi in order.into_iter().filter(|zi| zi % 8 == t) {
+                        let tz = zones[zi];
+                        let short = short_zone_name(tz.name());
+                        let want = mdatetime(tz, 1_610_280_000, 0);
+                        let text = rfc3339(1_610_280_000, 0, want.offset, 0, true);
+                        let a = crate::util::catch(|| DateTime::parse_from_rfc3339_with_timezone(&text, short));
+                        let doc = json!({"_kind": "dateTime", "val": text, "tz": short}).to_string();
+                        let b = crate::util::catch(|| dt_of(serde_json::from_str::<Value>(&doc).map_err(|e| e.to_string())));
+                        for (how, r) in [("parse_from_rfc3339_with_timezone", a), ("Hayson decode", b)] {
+                            match r {
+                                Ok(Ok(d)) if observe_datetime(&d) == want => {}
+                                Ok(Ok(d)) => bad.push(format!("{how} of {text} {short} on thread {t} gives {:?}", observe_datetime(&d))),
+                                Ok(Err(e)) => bad.push(format!("{how} of {text} {short} on thread {t} fails: {e}")),
+                                Err(p) => bad.push(format!("{how} of {text} {short} on thread {t} panics: {}", p.msg)),
+                            }
+                        }
+                    }
+                    bad
+                })
+            })
+            .collect();
+        hs.into_iter().flat_map(|h| h.join().unwrap_or_default()).collect()
+    });
+    ctx.eval("cold-start", ctx.shard, true);
+    ctx.evaluations += 2 * zones.len() as u64;
+    for b in bad.iter().take(3) {
+        ctx.violation("cold-start:concurrent-first-lookups", &format!("among the first zone lookups of the process, issued by 8 threads at once: {b}"), json!({"failures": bad.len()}));
+    }
+}
+
 pub fn run(ctx: &mut Ctx) {
+    if ctx.begin("cold-start", 0) {
+        cold_start(ctx);
+    }
     let zones = unambiguous_zones();
     ctx.note("zones_with_unambiguous_city", json!(zones.len()));
     // ---- exhaustive: every zone x every offset transition 1980-2060 x instants around it x fraction digits ----
